@@ -272,7 +272,7 @@ func zoneTag(evs []stream.Ev) string {
 
 func init() {
 	register("C16", "model_checking", func(r *findings.Run) {
-		L := r.Pick(4, 5)
+		L := r.Pick(4, 6)
 		cfgs := allTrigCfgs(r.Thorough())
 		hist := c16Histories(L, []int{0, 1, 3}, false, true)
 		histZ := c16Histories(r.Pick(3, 4), []int{1, 2}, false, true)
@@ -318,7 +318,7 @@ func init() {
 	})
 
 	register("C17", "model_checking", func(r *findings.Run) {
-		L := r.Pick(4, 5)
+		L := r.Pick(4, 6)
 		cfgs := allTrigCfgs(false)
 		histW := c16Histories(L, []int{0, 1, 3}, false, true)
 		histZ := c16Histories(r.Pick(3, 4), []int{1, 2}, false, true)
